@@ -2,4 +2,7 @@
 import containers
 TUS = containers.TUS
 def run(facts, rep, tier):
+    if tier == 'thorough':
+        containers.MODEL_BOUND.update(ring=8, sizes=5)          # deeper bounded decisions: every buffer state with capacity <= 8, sizes <= 5
+        rep.note('small-model bounds raised for the thorough tier: ring capacity <= 8, sizes <= 5')
     containers.array_rules(facts, rep)
